@@ -99,6 +99,17 @@ def signature(a, b, verdict):
     if mixed:
         sig["mixedDimCollection"] = True
         sig["entries"] = detail
+        # dimension of the operand that is NOT the mixed collection (the recorded defect needs a LINE whose ends sit on point elements)
+        dims = "?"
+        for x in verdict.split():
+            if x.startswith("dims="): dims = x[5:]
+        dd = dims.split(",")
+        if fa["mixedDim"] and not fb["mixedDim"] and len(dd) == 2:
+            sig["otherDim"] = dd[1]
+        elif fb["mixedDim"] and not fa["mixedDim"] and len(dd) == 2:
+            sig["otherDim"] = dd[0]
+        else:
+            sig["otherDim"] = "both"
     if coarse == "pred":
         sig["emptyElem"] = fa["emptyElem"] or fb["emptyElem"]
     if not gc:
